@@ -298,7 +298,9 @@ def run_presync(case, ctx):
     form = case.get('form', 'ctor')
     call_kw = {}
     if form == 'ctor':
-        dec = presync(probe, index={'ij': 'inner', 'oj': 'outer', 'lj': 'left', 'rj': 'right'}[policy], method=method, columns=False)
+        dec = presync(probe, index={'ij': 'inner', 'oj': 'outer', 'lj': 'left', 'rj': 'right'}.get(policy, 'inner'), method=method, columns=False)
+    elif policy == 'explicit':
+        dec = None
     elif form in ('chain_join_first', 'chain_fill_first'):
         dec = presync(probe, columns=False)
         steps = [policy] + ([method] if method else [])
@@ -311,9 +313,14 @@ def run_presync(case, ctx):
         call_kw = {'join': policy}
         if method:
             call_kw['method'] = method
-    index = joint(specs, policy, None)
+    index = joint(specs, policy, case.get('explicit'))
+    if policy == 'explicit':
+        import pandas as pd
+        eidx = pd.DatetimeIndex([stamp(i, intraday) for i in case['explicit']])
+        dec = presync(probe, index=eidx, method=method, columns=False)
+        call_kw = {}
     st, res = ctx.call(dec, *args, **dict(kw, **call_kw))
-    ctx.cls('presync:' + form)
+    ctx.cls('presync:' + (form if policy != 'explicit' else 'explicit_index'))
     if st != 'ok' or len(seen) != 1:
         ctx.ev('presync_probe_saw_aligned'); ctx.fail('presync_probe_saw_aligned', 'presync(probe)(...) -> %s %r ; probe called %d times' % (st, res, len(seen)))
         return
@@ -437,7 +444,9 @@ def gen_container(rng, ids, depth, multi_ok, rowcomplete, intcols_ok=False):
     kids = [gen_container(rng, ids, depth + 1, multi_ok, rowcomplete, intcols_ok) for _ in range(n)]
     if k in ('list', 'tuple'):
         return {k: kids}
-    return {k: {('k%d' % i): c for i, c in enumerate(kids)}}
+    names = ['k%d' % i for i in range(len(kids))]
+    rng.shuffle(names)                      # insertion order is not the sorted key order
+    return {k: {nm: c for nm, c in zip(names, kids)}}
 
 
 def gen_case(rng):
@@ -461,8 +470,6 @@ def gen_case(rng):
             arrays = [a for a in arrays if not isinstance(a, dict)] or [[1.0, 2.0]]
         return {'kind': 'numpy', 'arrays': arrays, 'policy': rng.choice(['ij', 'oj', 'lj', 'rj']), 'cont': rng.choice(['list', 'dict']), 'api': rng.choice(['df_reindex', 'df_sync'])}
     if r < 0.3:
-        if policy == 'explicit':
-            policy = 'ij'
         nargs = rng.randint(1, 3)
         items = [gen_container(rng, ids, rng.choice([1, 2, 3]), False, True) for _ in range(3)]
         if 'ts' not in items[0] and not flat_ts_terms(items[0], []):
@@ -472,12 +479,28 @@ def gen_case(rng):
         for nm, it in zip(['b', 'c'][nargs - 1:], items[nargs:]):
             if rng.random() < 0.6:
                 kwargs[nm] = it
-        return {'kind': 'presync', 'args': args, 'kwargs': kwargs, 'policy': policy, 'method': method, 'intraday': intraday,
-                'form': rng.choice(['ctor', 'chain_join_first', 'chain_fill_first', 'call_kw'])}
+        c_ = {'kind': 'presync', 'args': args, 'kwargs': kwargs, 'policy': policy, 'method': method, 'intraday': intraday,
+              'form': rng.choice(['ctor', 'chain_join_first', 'chain_fill_first', 'call_kw'])}
+        if policy == 'explicit':
+            c_['explicit'] = sorted(rng.sample(range(-2, 14), rng.randint(0, 8)))
+            if rng.random() < 0.5:      # exactly one timeseries among the arguments
+                c_['args'] = [gen_ts(rng, ids, False, True)]
+                c_['kwargs'] = {}
+        return c_
     multi = rng.random() < 0.35
     api = rng.choice(['df_sync', 'df_reindex']) if not multi else 'df_sync'
     # exact int64 columns beyond 2**53 only where alignment introduces no NaN (inner join, no fill): pandas itself upcasts otherwise
     x = gen_container(rng, ids, 0, multi, method is not None, intcols_ok=(policy == 'ij' and method is None))
+    if rng.random() < 0.12:
+        # every timeseries on the very same index object (built on one calendar)
+        tss = flat_ts_terms(x, [])
+        if tss:
+            ts0 = tss[0]['ts']
+            for t_ in tss:
+                t_['cols'] = [[(c[i] if i < len(c) else ids()) for i in range(len(ts0))] for c in t_['cols']]
+                t_['ts'] = list(ts0)
+                t_['share_index'] = True
+                t_.pop('intcols', None)
     case = {'kind': 'sync', 'x': x, 'policy': policy, 'method': method, 'intraday': intraday, 'api': api, 'multi': multi, 'long_names': rng.random() < 0.3}
     if multi:
         case['columns'] = rng.choice(['ij', 'oj'])
